@@ -1,376 +1,338 @@
-"""Hunt for C10 (memoisation is transparent) on the unmodified library.
+"""Hunt for violations of C10 (memoisation is transparent) on the unmodified library.
 
-Differential search: a probe (a small tree of parse_marker / & / | / re-parse of the
-rendered result / without_extras / exclude / only) is evaluated
+Usage:  cd /tmp/wt/C10i && PYTHONPATH=/tmp/wt/C10i/src /venv/bin/python hunt_C10.py [cases] [seed]
 
-  * cold: every cache emptied first (parse_marker, _merge_single_markers, cnf, dnf; all
-    marker objects are then rebuilt, so the per-object lazy caches are fresh too), or -
-    in `sub` mode - as the first thing in a fresh interpreter with a random PYTHONHASHSEED;
-  * warm: after a random history of other probes drawn from the same small pool of
-    marker texts (so operands collide: '3.8' vs '3.8.0' vs '3.8.00' vs '0!3.8',
-    literal-on-the-left vs right, quote and whitespace variants, extra names differing
-    only by normalisation, results re-rendered by the library), in three random orders.
+A *history* is a straight-line program whose steps are
+    parse(text) | a & b | a | b | re-parse(str(a)) | rebuild(a) | from_specifier(a)
+(`rebuild` constructs an equal atom through the MarkerExpression constructor,
+`from_specifier` goes through MarkerExpression.from_specifier with the atom's own
+specifier: markers that compare equal but were built differently).  The last step is
+the probe.  For every program the probe is observed (str(), evaluate() on a grid of
+environments in the "metadata" and the "lock_file" context, exceptions included)
 
-Compared: str(result), a structural dump (types, fields, `reversed`), the truth table over
-33 environments, and the exception type/message when the probe raises. Both sides of the
-comparison are the library itself under a different history, which is exactly what the
-property quantifies over; no hard-coded expectations.
+  * warm      : after the whole program ran in order,
+  * cold      : all caches cleared, only the dependency cone of the probe is run,
+  * shuffled  : caches cleared, the whole program in a random topological order,
 
-usage: hunt_C10.py [rounds=40] [sub_probes=20]
+and the three observations have to coincide (direct evaluation of both sides of the
+property's equation: probe after a history == probe alone).
 
-Result of the search that was actually run for the report (unmodified tree):
-  in-process, general mix : seeds 1,3,4,5,6,63,64   ~46,000 warm probes  0 violations
-  in-process, version atoms only (python_version / python_full_version / platform_release,
-      epochs, wildcards of depth 1-3, ~= with 2-4 segments, trailing zeros, reversed)
-                            seeds 21,22,61,62       ~32,000 warm probes  0 violations
-  in-process, string/extra atoms only (==, !=, in, not in both ways round, os.name alias,
-      extra / extras / dependency_groups with name normalisation)
-                            seeds 31,32             ~12,900 warm probes  0 violations
-  in-process, only ==/!=/in/not in on os_name, sys_platform, extra over six literals
-      (collisions between EqualityMarkerUnion / InequalityMultiMarker value orders)
-                            seeds 7,8               ~25,800 warm probes  0 violations
-  fresh interpreters (random hash seeds): 396 general + 300 version + 298 string probes,
-      each run once alone and once after 8 history operations        0 violations
-No NEW violation of C10 was found; this script re-runs a reduced version of that search
-and prints every difference it sees (none expected on the unmodified tree).
+A second, slower check re-runs a fixed batch of programs in fresh interpreters
+with different PYTHONHASHSEEDs and compares a digest of all rendered results.
+
+Nothing new was found: the script prints the number of cases and "violations 0".
 """
+
 from __future__ import annotations
 
-import itertools
+import hashlib
+import os
 import random
+import signal
+import subprocess
 import sys
-import time
 
 from dep_logic.markers import parse_marker
-from dep_logic.markers import single as _single
-from dep_logic import utils as _utils
-from dep_logic.markers.any import AnyMarker
-from dep_logic.markers.empty import EmptyMarker
-from dep_logic.markers.multi import MultiMarker
-from dep_logic.markers.union import MarkerUnion
-from dep_logic.markers.single import (
-    EqualityMarkerUnion,
-    InequalityMultiMarker,
-    MarkerExpression,
-)
+from dep_logic.markers.single import MarkerExpression, _merge_single_markers
+from dep_logic.utils import cnf, dnf
 
 
-def clear():
-    parse_marker.cache_clear()
-    _single._merge_single_markers.cache_clear()
-    _utils.cnf.cache_clear()
-    _utils.dnf.cache_clear()
-    d = getattr(_single, "_parsed_specifiers", None)
-    if d is not None:
-        d.clear()
+def _alarm(*_a):
+    raise TimeoutError
 
-
-VERS = ["3.8", "3.8.0", "3.9", "3.10", "3.10.0", "3.1", "3", "3.0", "3.10.2", "3.9.*", "3.*", "2.7", "4", "3.8.00", "03.8", "1!3.8", "3.8.1.*", "3.8.1.0", "3.8.1", "0!3.8", "3.8.0.0", "5.15.0-generic"]
-VOPS = ["==", "!=", "<", "<=", ">", ">=", "~="]
-STRVARS = {
-    "os_name": ["nt", "posix", "java"],
-    "sys_platform": ["linux", "win32", "darwin", "Linux"],
-    "platform_machine": ["x86_64", "arm64"],
-    "platform_system": ["Linux", "Windows"],
-    "implementation_name": ["cpython", "pypy"],
-    "platform_python_implementation": ["CPython", "PyPy"],
-    "platform_version": ["#1 SMP", "10.0"],
-}
-EXTRAS = ["foo", "Foo", "foo-bar", "foo_bar", "foo.bar", "bar"]
-
-
-FOCUS = None
-
-
-def rnd_atom(r: random.Random) -> str:
-    k = r.random()
-    if FOCUS == "ver":
-        k = k * 0.45
-    elif FOCUS == "str":
-        k = 0.53 + k * 0.47
-    if k < 0.45:
-        name = r.choice(["python_version", "python_full_version", "python_version", "platform_release"])
-        op = r.choice(VOPS)
-        v = r.choice(VERS)
-        if "*" in v and op not in ("==", "!="):
-            op = r.choice(["==", "!="])
-        if op == "~=" and "." not in v:
-            v = "3.8"
-        if r.random() < 0.25 and op != "~=" and "*" not in v:
-            rop = {"<": ">", "<=": ">=", ">": "<", ">=": "<=", "==": "==", "!=": "!="}[op]
-            return f'"{v}" {rop} {name}'
-        q = r.choice(['"', "'"])
-        sp = r.choice([" ", "", "  "])
-        return f"{name}{sp}{op}{sp}{q}{v}{q}"
-    if k < 0.53:
-        name = "implementation_version"
-        return f'{name} {r.choice(["==", "!=", ">=", "<"])} "{r.choice(["3.8", "3.8.0", "3.10"])}"'
-    if k < 0.80:
-        name = r.choice(list(STRVARS))
-        v = r.choice(STRVARS[name])
-        op = r.choice(["==", "!=", "==", "!=", "in", "not in"])
-        if name == "platform_python_implementation" and r.random() < 0.3:
-            name = "python_implementation"
-        if name in ("os_name", "sys_platform") and r.random() < 0.2:
-            name = name.replace("_", ".")
-        if r.random() < 0.25:
-            return f'"{v}" {op} {name}'
-        if op in ("in", "not in"):
-            v = r.choice([v, v + " x", "win32 linux", "nt posix"])
-        return f'{name} {op} "{v}"'
-    if k < 0.93:
-        op = r.choice(["==", "!="])
-        v = r.choice(EXTRAS)
-        if r.random() < 0.2:
-            return f'"{v}" {op} extra'
-        return f'extra {op} "{v}"'
-    name = r.choice(["extras", "dependency_groups"])
-    v = r.choice(EXTRAS)
-    return f'"{v}" {r.choice(["in", "not in"])} {name}'
-
-
-def rnd_text(r: random.Random, depth=0) -> str:
-    n = r.choice([1, 1, 2, 2, 3])
-    parts = []
-    for _ in range(n):
-        if depth < 1 and r.random() < 0.2:
-            parts.append("(" + rnd_text(r, depth + 1) + ")")
-        else:
-            parts.append(rnd_atom(r))
-    out = parts[0]
-    for p in parts[1:]:
-        out += r.choice([" and ", " or "]) + p
-    return out
-
-
-# expression trees: ("p", text) | ("&", t1, t2) | ("|", t1, t2) | ("re", t) | ("only", t, names) | ("excl", t, name) | ("wo", t)
-def rnd_tree(r: random.Random, pool: list[str], depth=0):
-    k = r.random()
-    if depth >= 2 or k < 0.35:
-        return ("p", r.choice(pool))
-    if k < 0.62:
-        return ("&", rnd_tree(r, pool, depth + 1), rnd_tree(r, pool, depth + 1))
-    if k < 0.88:
-        return ("|", rnd_tree(r, pool, depth + 1), rnd_tree(r, pool, depth + 1))
-    if k < 0.94:
-        return ("re", rnd_tree(r, pool, depth + 1))
-    if k < 0.96:
-        return ("wo", rnd_tree(r, pool, depth + 1))
-    if k < 0.98:
-        return ("excl", rnd_tree(r, pool, depth + 1), r.choice(["extra", "python_version", "os_name"]))
-    return ("only", rnd_tree(r, pool, depth + 1), r.choice([("python_version",), ("python_version", "python_full_version"), ("extra", "os_name")]))
-
-
-def ev(tree):
-    t = tree[0]
-    if t == "p":
-        return parse_marker(tree[1])
-    if t == "&":
-        return ev(tree[1]) & ev(tree[2])
-    if t == "|":
-        return ev(tree[1]) | ev(tree[2])
-    if t == "re":
-        return parse_marker(str(ev(tree[1])))
-    if t == "wo":
-        return ev(tree[1]).without_extras()
-    if t == "excl":
-        return ev(tree[1]).exclude(tree[2])
-    if t == "only":
-        return ev(tree[1]).only(*tree[2])
-    raise AssertionError(t)
-
-
-def dump(m) -> str:
-    if isinstance(m, MarkerExpression):
-        return f"E({m.name!r},{m.op!r},{m.value!r},{m.reversed!r})"
-    if isinstance(m, EqualityMarkerUnion):
-        return f"EQU({m.name!r},{list(m.values)!r})"
-    if isinstance(m, InequalityMultiMarker):
-        return f"NEM({m.name!r},{list(m.values)!r})"
-    if isinstance(m, MultiMarker):
-        return "AND[" + ",".join(dump(x) for x in m.markers) + "]"
-    if isinstance(m, MarkerUnion):
-        return "OR[" + ",".join(dump(x) for x in m.markers) + "]"
-    if isinstance(m, AnyMarker):
-        return "ANY"
-    if isinstance(m, EmptyMarker):
-        return "EMPTY"
-    return repr(m)
-
-
-ENVS = []
-for pfv in ["3.7.9", "3.8.0", "3.8.5", "3.9.1", "3.10.0", "3.10.2", "3.1.0", "3.0.0", "4.0.0", "2.7.18", "3.11.4"]:
-    pv = ".".join(pfv.split(".")[:2])
-    for i, (osn, sp, ex) in enumerate([("nt", "win32", "foo"), ("posix", "linux", "foo-bar"), ("java", "darwin", "")]):
-        ENVS.append(
-            {
-                "python_version": pv,
-                "python_full_version": pfv,
-                "os_name": osn,
-                "sys_platform": sp,
-                "platform_machine": ["x86_64", "arm64"][i % 2],
-                "platform_system": ["Windows", "Linux", "Linux"][i],
-                "implementation_name": ["cpython", "pypy", "cpython"][i],
-                "platform_python_implementation": ["CPython", "PyPy", "CPython"][i],
-                "implementation_version": pfv,
-                "platform_version": ["10.0", "#1 SMP", "x"][i],
-                "platform_release": ["3.8.0", "3.10", "3.9.1"][i],
-                "extra": ex,
-                "extras": {ex} if ex else set(),
-                "dependency_groups": {"bar"} if i else set(),
-            }
-        )
-
-
-class _TO(BaseException):
-    pass
-
-
-def _alarm(*a):
-    raise _TO()
-
-
-import signal
 
 signal.signal(signal.SIGALRM, _alarm)
 
-
-def observe(tree, with_eval=True):
-    try:
-        return _observe(tree, with_eval)
-    except _TO:
-        return None
-
-
-def _observe(tree, with_eval=True):
-    signal.setitimer(signal.ITIMER_REAL, 1.5)
-    try:
-        m = ev(tree)
-    except _TO:
-        return None
-    except Exception as e:  # noqa
-        signal.setitimer(signal.ITIMER_REAL, 0)
-        return ("EXC", type(e).__name__, str(e)[:80])
-    finally:
-        signal.setitimer(signal.ITIMER_REAL, 0)
-    s = str(m)
-    d = dump(m)
-    if not with_eval:
-        return (s, d)
-    evs = []
-    for env in ENVS:
-        try:
-            evs.append(m.evaluate(dict(env)))
-        except Exception as e:  # noqa
-            evs.append(type(e).__name__)
-    return (s, d, tuple(evs))
+VERS = [
+    "3", "3.0", "3.7", "3.8", "3.8.0", "3.9", "3.10", "3.10.0", "3.10.1", "3.11",
+    "3.11.0.0", "3.8.*", "3.*", "3.8.0.*", "2.7", "0!3.8", "1!3.8", "3.08", "03.8", "3.8.1.2",
+]  # fmt: skip
+STR = {
+    "os_name": ["nt", "posix", "java", ""],
+    "sys_platform": ["linux", "win32", "darwin", "lin", 'a"b', "a'b", "a\\b"],
+    "platform_machine": ["x86_64", "arm64", "X86_64"],
+    "platform_system": ["Linux", "Windows"],
+    "platform_python_implementation": ["CPython", "PyPy"],
+    "implementation_name": ["cpython", "pypy"],
+    "platform_version": ["#1 SMP", "10.0.19041"],
+    "implementation_version": ["3.8.0", "3.10", "3.10.0"],
+    "platform_release": ["5.10", "5.10.0", "6"],
+    "extra": ["a", "A", "b", "a_b", "a-b", "a.b", "A__B"],
+}
+SETS = {"extras": ["a", "A", "a_b", "a-b"], "dependency_groups": ["dev", "Dev", "d_e"]}
 
 
-CHILD = r"""
-import sys, json
-sys.path.insert(0, %r)
-import hunt_C10 as f
-trees = json.loads(sys.stdin.read())
-def tup(x):
-    return tuple(tup(i) for i in x) if isinstance(x, list) else x
-for t in trees[:-1]:
-    f.observe(tup(t), with_eval=False)
-print(json.dumps(f.observe(tup(trees[-1]))))
-"""
+def lit(v: str) -> str:
+    if '"' in v:
+        return f"'{v}'"
+    return '"' + v.replace("\\", "\\\\") + '"'
 
 
-def make_pool(r, size):
-    pool = [rnd_text(r) for _ in range(size)]
-    clear()
-    for txt in list(pool):
-        try:
-            pool.append(str(parse_marker(txt)))  # results re-rendered by the library
-        except Exception:
-            pass
-    return [p for p in pool if p]
-
-
-def in_process(seed, rounds, focus):
-    global FOCUS
-    FOCUS = focus
-    r = random.Random(seed)
-    ncase = nviol = nskip = 0
-    for rd in range(rounds):
-        pool = make_pool(r, r.choice([4, 6, 8]))
-        trees = [rnd_tree(r, pool) for _ in range(r.choice([6, 10, 16]))]
-        cold = []
-        for t in trees:
-            clear()
-            cold.append(observe(t))
-        for _ in range(3):
-            order = list(range(len(trees)))
-            r.shuffle(order)
-            clear()
-            for pos, idx in enumerate(order):
-                w = observe(trees[idx])
-                ncase += 1
-                if w is None or cold[idx] is None:
-                    nskip += 1  # exponential blow-up (known family 9): not judged
-                    continue
-                if w != cold[idx]:
-                    nviol += 1
-                    print("VIOLATION (in-process) probe:", trees[idx])
-                    print("   cold  :", cold[idx][:2])
-                    print("   warm  :", w[:2])
-                    print("   after :", [trees[j] for j in order[:pos]])
-    print(f"in-process focus={focus} seed={seed}: {ncase} warm probes, {nviol} violations, {nskip} skipped (timeouts)")
-    return nviol
-
-
-def run_child(trees, hashseed):
-    import json
-    import os
-    import subprocess
-
-    here = os.path.dirname(os.path.abspath(__file__))
-    env = dict(os.environ, PYTHONHASHSEED=str(hashseed))
-    p = subprocess.run([sys.executable, "-c", CHILD % here], input=json.dumps(trees),
-                       capture_output=True, text=True, env=env, timeout=300)
-    if p.returncode != 0:
-        return ["CHILDFAIL", p.stderr[-300:]]
-    return json.loads(p.stdout)
-
-
-def fresh_interpreters(seed, n, focus):
-    global FOCUS
-    FOCUS = focus
-    r = random.Random(seed)
-    done = nviol = 0
-    for _ in range(n):
-        pool = make_pool(r, 6)
-        hist = [rnd_tree(r, pool) for _ in range(8)]
-        probe = rnd_tree(r, pool)
-        a = run_child([probe], r.randrange(1, 10**6))
-        b = run_child(hist + [probe], r.randrange(1, 10**6))
-        if a is None or b is None:
-            continue
-        done += 1
-        if a != b:
-            nviol += 1
-            print("VIOLATION (fresh interpreter) probe:", probe)
-            print("   alone :", a[:2])
-            print("   after :", b[:2], hist)
-    print(f"fresh-interpreter focus={focus} seed={seed}: {done} probes, {nviol} violations")
-    return nviol
-
-
-def main():
-    rounds = int(sys.argv[1]) if len(sys.argv) > 1 else 40
-    subs = int(sys.argv[2]) if len(sys.argv) > 2 else 20
-    total = 0
-    for i, focus in enumerate([None, "ver", "str"]):
-        total += in_process(100 + i, rounds, focus)
-        total += fresh_interpreters(200 + i, subs, focus)
-    if total:
-        print(f"{total} violation(s) of C10 found")
+def atom(rng: random.Random) -> str:
+    k = rng.random()
+    if k < 0.45:
+        name = rng.choice(["python_version", "python_full_version"])
+        v = rng.choice(VERS)
+        ops = ["==", "!="] if "*" in v else ["==", "!=", "<", "<=", ">", ">=", "~="]
+        op = rng.choice(ops)
+        if op == "~=" and "." not in v:
+            op = ">="
+        if rng.random() < 0.2:
+            return f"{lit(v)} {op} {name}"
+        return f"{name} {op} {lit(v)}"
+    if k < 0.55:
+        name = rng.choice(list(SETS))
+        v = rng.choice(SETS[name])
+        return f"{lit(v)} {rng.choice(['in', 'not in'])} {name}"
+    name = rng.choice(list(STR))
+    v = rng.choice(STR[name])
+    if name == "extra":
+        op = rng.choice(["==", "!="])
+    elif name in ("implementation_version", "platform_release"):
+        op = rng.choice(["==", "!=", "<", ">="])
     else:
-        print("no NEW violation of C10 found (see the module docstring for the areas and case counts)")
+        op = rng.choice(["==", "!=", "==", "!=", "in", "not in"])
+    if rng.random() < 0.2:
+        return f"{lit(v)} {op} {name}"
+    return f"{name} {op} {lit(v)}"
+
+
+def text(rng: random.Random, depth: int = 0) -> str:
+    if depth > 1 or rng.random() < 0.5:
+        return atom(rng)
+    j = rng.choice([" and ", " or "])
+    parts = [text(rng, depth + 1) for _ in range(rng.randint(2, 3))]
+    return j.join(f"({p})" if rng.random() < 0.5 else p for p in parts)
+
+
+ENVS = []
+for pv, pfv in [("3.7", "3.7.3"), ("3.8", "3.8.0"), ("3.8", "3.8.5"), ("3.10", "3.10.0"),
+                ("3.10", "3.10.1"), ("3.11", "3.11.4"), ("2.7", "2.7.18"), ("3.0", "3.0.1")]:  # fmt: skip
+    for osn, sp, ps in [("nt", "win32", "Windows"), ("posix", "linux", "Linux"), ("java", "lin", "Darwin")]:
+        for ex in [["", "a", "a-b"][len(ENVS) % 3]]:
+            ENVS.append(
+                dict(
+                    python_version=pv, python_full_version=pfv, os_name=osn, sys_platform=sp,
+                    platform_system=ps, platform_machine="x86_64" if osn == "nt" else "arm64",
+                    implementation_name="cpython" if ex else "pypy",
+                    platform_python_implementation="CPython" if ex else "PyPy",
+                    implementation_version=pfv, platform_release="5.10.0" if ex else "6",
+                    platform_version="#1 SMP", extra=ex,
+                )
+            )  # fmt: skip
+LOCK_ENVS = [dict(e, extras={e["extra"]} if e["extra"] else set(), dependency_groups={"dev"}) for e in ENVS[::4]]
+
+
+def clear() -> None:
+    parse_marker.cache_clear()
+    _merge_single_markers.cache_clear()
+    cnf.cache_clear()
+    dnf.cache_clear()
+    # (a cache that is not there on the unmodified tree; harmless)
+    getattr(MarkerExpression.from_specifier, "cache_clear", lambda: None)()
+
+
+def step(st, vals):
+    kind = st[0]
+    if kind == "parse":
+        return parse_marker(st[1])
+    if kind == "and":
+        return vals[st[1]] & vals[st[2]]
+    if kind == "or":
+        return vals[st[1]] | vals[st[2]]
+    if kind == "reparse":
+        return parse_marker(str(vals[st[1]]))
+    m = vals[st[1]]
+    if kind == "rebuild":
+        if isinstance(m, MarkerExpression):
+            return MarkerExpression(m.name, m.op, m.value, m.reversed)
+        return m
+    if kind == "fromspec":
+        if isinstance(m, MarkerExpression) and not m.reversed:
+            try:
+                r = MarkerExpression.from_specifier(m.name, m.specifier)
+            except Exception:
+                return m
+            return m if r is None else r
+        return m
+    raise AssertionError(kind)
+
+
+def run(prog, order):
+    vals = {}
+    for i in order:
+        vals[i] = step(prog[i], vals)
+    return vals
+
+
+def deps(st):
+    return {"parse": ()}.get(st[0], st[1:])
+
+
+def cone(prog, i):
+    need, stack = set(), [i]
+    while stack:
+        j = stack.pop()
+        if j not in need:
+            need.add(j)
+            stack += list(deps(prog[j]))
+    return sorted(need)
+
+
+def topo_shuffle(prog, rng):
+    done, order, todo = set(), [], list(range(len(prog)))
+    while todo:
+        ready = [i for i in todo if all(d in done for d in deps(prog[i]))]
+        i = rng.choice(ready)
+        todo.remove(i)
+        done.add(i)
+        order.append(i)
+    return order
+
+
+def ev(m, env, ctx):
+    try:
+        return m.evaluate(env, ctx)
+    except Exception as e:  # part of the observation
+        return type(e).__name__
+
+
+def observe(m):
+    return (
+        str(m),
+        tuple(ev(m, e, "metadata") for e in ENVS),
+        tuple(ev(m, e, "lock_file") for e in LOCK_ENVS),
+    )
+
+
+def gen_prog(rng, lo=3, hi=8):
+    prog = []
+    for _ in range(rng.randint(lo, hi)):
+        k = rng.random()
+        n = len(prog)
+        if not prog or k < 0.4:
+            prog.append(("parse", text(rng)))
+        elif k < 0.6:
+            prog.append(("and", rng.randrange(n), rng.randrange(n)))
+        elif k < 0.8:
+            prog.append(("or", rng.randrange(n), rng.randrange(n)))
+        elif k < 0.9:
+            prog.append(("reparse", rng.randrange(n)))
+        elif k < 0.95:
+            prog.append(("rebuild", rng.randrange(n)))
+        else:
+            prog.append(("fromspec", rng.randrange(n)))
+    return prog
+
+
+# hand written sequences: equal-but-differently-built operands, '3.10' vs '3.10.0',
+# literal on the left, atoms that only differ in `reversed`, re-rendered results
+HAND = [
+    [("parse", '"3.8" <= python_version'), ("parse", 'python_version >= "3.8"'), ("parse", 'os_name == "nt"'),
+     ("parse", 'sys_platform == "win32"'), ("and", 0, 2), ("and", 4, 3), ("and", 1, 2), ("and", 6, 3)],
+    [("parse", '"lin" in sys_platform'), ("parse", 'sys_platform in "lin"'), ("parse", 'os_name == "nt"'),
+     ("parse", 'python_version >= "3.8"'), ("and", 0, 2), ("and", 4, 3), ("and", 1, 2), ("and", 6, 3)],
+    [("parse", '"lin" in sys_platform'), ("parse", 'sys_platform in "lin"'), ("and", 0, 1), ("or", 0, 1),
+     ("and", 1, 0), ("or", 1, 0)],
+    [("parse", 'python_version > "3.10" or python_version == "3.10"'),
+     ("parse", 'python_version > "3.10.0" or python_version == "3.10.0"')],
+    [("parse", 'python_version >= "3.8.0" and python_version < "3.9"'),
+     ("parse", 'python_version >= "3.8" and python_version < "3.9.0"')],
+    [("parse", 'python_version >= "3.7" and python_full_version ~= "3.8.0"'),
+     ("parse", 'python_version >= "3.7" and python_full_version == "3.8.*"')],
+    [("parse", 'os_name == "a" or os_name == "b"'), ("parse", 'os_name == "b" or os_name == "a"'),
+     ("parse", 'python_version >= "3.8"'), ("parse", 'sys_platform == "linux"'), ("and", 0, 2), ("and", 4, 3),
+     ("and", 1, 2), ("and", 6, 3), ("or", 5, 7), ("or", 7, 5)],
+    [("parse", 'os_name != "a" and os_name != "b"'), ("parse", 'os_name != "b" and os_name != "a"'),
+     ("parse", 'python_version >= "3.8"'), ("parse", 'sys_platform == "linux"'), ("or", 0, 2), ("or", 4, 3),
+     ("or", 1, 2), ("or", 6, 3), ("and", 5, 7), ("and", 7, 5)],
+    [("parse", 'extra == "a_b"'), ("parse", 'extra == "A-B"'), ("parse", '"a_b" == extra'), ("or", 0, 1),
+     ("and", 0, 1), ("or", 2, 0), ("and", 0, 2), ("or", 0, 2)],
+    [("parse", 'python_full_version >= "3.10"'), ("parse", 'python_full_version >= "3.10.0"'),
+     ("parse", 'python_version >= "3.10"'), ("and", 0, 2), ("and", 1, 2), ("and", 2, 0), ("and", 2, 1),
+     ("or", 0, 1), ("or", 1, 0)],
+]
+
+
+def check(prog, rng, stats):
+    bad = 0
+    for last in {len(prog) - 1} | ({rng.randrange(len(prog))} if stats is None else set()):
+        signal.alarm(3)
+        try:
+            outs = []
+            for order in (range(len(prog)), cone(prog, last), topo_shuffle(prog, rng)):
+                clear()
+                try:
+                    outs.append(observe(run(prog, order)[last]))
+                except TimeoutError:
+                    raise
+                except Exception as e:
+                    outs.append(("EXC", type(e).__name__))
+        except TimeoutError:
+            if stats is not None:
+                stats["timeouts"] += 1
+            continue
+        finally:
+            signal.alarm(0)
+        if not outs[0] == outs[1] == outs[2]:
+            bad += 1
+            print("VIOLATION (history dependence)")
+            print("  program:", prog, "probe step", last)
+            for lab, o in zip(("warm", "cold", "shuffled"), outs):
+                print(f"  {lab:8}: {o[0]!r}")
+    return bad
+
+
+def hashseed_batch():
+    rng = random.Random(7)
+    h = hashlib.sha256()
+    for _ in range(1500):
+        prog = gen_prog(rng, 3, 5)
+        # deterministic size cap (a time-out would not be reproducible across runs)
+        if sum(st[1].count(" and ") + st[1].count(" or ") + 1 for st in prog if st[0] == "parse") > 6:
+            continue
+        signal.alarm(120)
+        try:
+            vals = run(prog, range(len(prog)))
+            h.update(repr([str(v) for v in vals.values()]).encode())
+        except TimeoutError:
+            h.update(b"T")
+        except Exception as e:
+            h.update(type(e).__name__.encode())
+        finally:
+            signal.alarm(0)
+    print(h.hexdigest())
+
+
+def main() -> int:
+    if sys.argv[1:2] == ["--hashseed-batch"]:
+        hashseed_batch()
+        return 0
+    n = int(sys.argv[1]) if len(sys.argv) > 1 else 1000
+    seed = int(sys.argv[2]) if len(sys.argv) > 2 else 1
+    rng = random.Random(seed)
+    bad = 0
+    for prog in HAND:
+        bad += check(prog, rng, None)
+        for i in range(len(prog)):
+            bad += check(prog[: i + 1], rng, None)
+    print(f"hand written sequences: {len(HAND)} programs, every prefix/probe position, violations {bad}")
+    stats = {"timeouts": 0}
+    for _ in range(n):
+        bad += check(gen_prog(rng), rng, stats)
+    print(f"random histories: cases {n} seed {seed} violations {bad} (skipped as too slow: {stats['timeouts']})")
+    procs = [
+        subprocess.Popen([sys.executable, __file__, "--hashseed-batch"], env=dict(os.environ, PYTHONHASHSEED=hs),
+                         stdout=subprocess.PIPE, text=True)
+        for hs in ("0", "1", "4242")
+    ]  # fmt: skip
+    digests = {p.communicate()[0].strip() for p in procs}
+    print("fresh interpreters with PYTHONHASHSEED 0/1/4242, 1500 generated programs (small ones kept) each:", "identical" if len(digests) == 1 else f"DIFFERENT {digests}")
+    if len(digests) != 1:
+        bad += 1
+    print("NEW violations found:", bad)
+    return 1 if bad else 0
 
 
 if __name__ == "__main__":
-    main()
+    sys.exit(main())
